@@ -424,8 +424,87 @@ def run_diamond_snapshot(kind_i: int, b_over: bool, c_over: bool, d_over: bool, 
     return ok, witness
 
 
+NONPY_CASES = ["require_on_method_of_builtin_base", "require_on_object_slot_wrapper", "builtin_base_accepts_all",
+               "base_member_under_lru_cache"]
+
+
+def run_nonpython_provider(case_i: int, tpre: bool, tpost: bool) -> Tuple[bool, bool]:
+    """An ancestor provides the member as something that is not a plain Python function: a C-implemented method of a built-in
+    base, a slot wrapper of ``object``, or a Python method under a C-implemented decorator (functools.lru_cache) on top of its
+    contracts.  It still counts as an ancestor providing the member."""
+    import functools as ft
+    case_i = conc(case_i, 0, len(NONPY_CASES) - 1)
+    case = NONPY_CASES[case_i]
+    truth = {"pre": tpre, "post": tpost}
+    with untraced():
+        def pre(x: Any) -> Any:
+            return truth["pre"]
+
+        def post(result: Any) -> Any:
+            return truth["post"]
+        if case == "require_on_method_of_builtin_base":
+            # list.append has no precondition at all: adding one must be rejected when the class is created
+            def append(self: Any, x: Any) -> None:
+                list.append(self, x)
+            try:
+                icontract.DBCMeta("Stack", (icontract.DBC, list), {
+                    "append": icontract.require(pre, error=lambda: Tag("pre"))(append)})
+                status = "accepted"
+            except TypeError:
+                status = "TypeError"
+            note(("nonpy", case, status), True)
+            return status == "TypeError", True
+        if case == "require_on_object_slot_wrapper":
+            def __eq__(self: Any, x: Any) -> bool:
+                return True
+            try:
+                icontract.DBCMeta("Money", (icontract.DBC,), {
+                    "__eq__": icontract.require(pre, error=lambda: Tag("pre"))(__eq__), "__hash__": None})
+                status = "accepted"
+            except TypeError:
+                status = "TypeError"
+            note(("nonpy", case, status), True)
+            return status == "TypeError", True
+        if case == "builtin_base_accepts_all":
+            def update(self: Any, x: Any) -> Any:
+                return "registry"
+            registry = icontract.DBCMeta("Registry", (icontract.DBC,), {
+                "update": icontract.require(pre, error=lambda: Tag("pre"))(update)})
+
+            def update2(self: Any, x: Any) -> Any:
+                return "both"
+            both = icontract.DBCMeta("DictRegistry", (registry, dict), {"update": update2})
+            inst = both()
+        else:
+            def compute(self: Any, x: Any) -> Any:
+                return "base"
+            f = icontract.ensure(post, error=lambda: Tag("post"))(compute)
+            f = icontract.require(pre, error=lambda: Tag("pre"))(f)
+            base = icontract.DBCMeta("Base", (icontract.DBC,), {"compute": ft.lru_cache(maxsize=None)(f), "__hash__": lambda self: 1})
+
+            def compute2(self: Any, x: Any) -> Any:
+                return "derived"
+            derived = icontract.DBCMeta("Derived", (base,), {"compute": compute2})
+            inst = derived()
+    try:
+        got = fresh(inst.update, 1) if case == "builtin_base_accepts_all" else fresh(inst.compute, 1)
+    except Tag as err:
+        got = "tag:" + err.label
+    if case == "builtin_base_accepts_all":
+        want = "both"  # dict.update accepts every call, so does the override
+    else:
+        want = "tag:pre" if not tpre else ("tag:post" if not tpost else "derived")
+    note(("nonpy", case, got), got != want or not (tpre and tpost))
+    return got == want, not (tpre and tpost)
+
+
 def harnesses(tier: str) -> List[H]:
     out = []  # type: List[H]
+    NP = ["case_i", "tpre", "tpost"]
+    out.append(H("nonpython_provider", bind(run_nonpython_provider, (), NP, {}, NP),
+                 [I("case_i", 0, len(NONPY_CASES) - 1), B("tpre"), B("tpost")], tiers=(tier,), timeout=200,
+                 family="ancestors providing the member as a non-Python callable: {}".format(NONPY_CASES),
+                 family_size=len(NONPY_CASES)))
     DS = ["kind_i", "b_over", "c_over", "d_over", "d_post", "ta", "td"]
     dparams = [I("kind_i", 0, 2), B("b_over"), B("c_over"), B("d_over"), B("d_post"), B("ta"), B("td")]
     out.append(H("diamond_snapshot", bind(run_diamond_snapshot, (), DS, {}, DS), dparams, tiers=(tier,), timeout=600,
